@@ -71,6 +71,13 @@ func main() {
 		if thorough {
 			pf.steps *= 2
 		}
+		// the fixed corpus runs first
+		var sc *script
+		if k < len(corpus) {
+			sc = &corpus[k]
+			nv = sc.n
+			pf = profile{name: "script:" + sc.name}
+		}
 		opts := clusterOpts{n: nv, verbose: verbose, stateRoot: r.Chance(1, 4), maxTxPerBlock: uint16(2 + r.Intn(6)), memPoolSize: 50}
 		// Boundary load: in half of the cases a handful of the generated transactions (system fee
 		// 100000..140000, 398 bytes with 4 validators, 637 with 7) crosses MaxBlockSystemFee or
@@ -93,6 +100,13 @@ func main() {
 			opts.maxBlockSize = uint32(base + 2*txSize + txSize/2 + r.Intn(2*txSize))
 			opts.maxTxPerBlock = 8
 		}
+		if sc != nil {
+			opts = clusterOpts{n: nv, verbose: verbose, maxTxPerBlock: 6, memPoolSize: 50}
+			limits = "default"
+			if sc.opts != nil {
+				sc.opts(&opts)
+			}
+		}
 		cl, err := newCluster(dir, opts)
 		if err != nil {
 			fmt.Fprintln(os.Stderr, "cluster:", err)
@@ -100,19 +114,30 @@ func main() {
 		}
 		run := &run{o: o, k: k, r: r, cl: cl, dec: newDecoder(cl), pf: pf, silent: map[int]bool{},
 			txs: map[util.Uint256]*transaction.Transaction{}, committed: map[uint32]*block.Block{}, maxTx: int(opts.maxTxPerBlock),
-			commitAt: map[uint32]map[int]byte{}, hadAsync: pf.steps > 0}
-		run.line(fmt.Sprintf("init %d", nv))
+			commitAt: map[uint32]map[int]byte{}, hadAsync: pf.steps > 0, tn: &txNames{n: map[util.Uint256]int{}}}
+		// init n tpb maxTx maxSize maxSysFee sr baseV baseP gts
+		{
+			bc := cl.nodes[0].bc
+			cfg := bc.GetConfig()
+			gen, _ := bc.GetBlock(bc.GetHeaderHash(0))
+			eb := block.New(opts.stateRoot)
+			baseV := eb.GetExpectedBlockSizeWithoutTransactions(0)
+			baseP := policyBase(bc, opts.stateRoot, nv)
+			run.line(fmt.Sprintf("init %d %d %d %d %d %d %d %d %d", nv, int64(timePerBlock), cfg.MaxTransactionsPerBlock,
+				cfg.MaxBlockSize, cfg.MaxBlockSystemFee, b2i(opts.stateRoot), baseV, baseP, gen.Timestamp))
+		}
 		for _, nd := range cl.nodes {
+			run.pre(nd)
+			run.line(fmt.Sprintf("start %d", nd.idx))
 			if err := nd.start(); err != nil {
 				fmt.Fprintln(os.Stderr, "start:", err)
 				os.Exit(3)
 			}
-			run.line(fmt.Sprintf("start %d", nd.idx))
 			run.settle(nd)
 		}
 		run.tight = limits != "default"
 		// some transactions to start with
-		for i := r.Intn(4) + 2*b2i(run.tight); i > 0; i-- {
+		for i := r.Intn(4) + 2*b2i(run.tight); i > 0 && sc == nil; i-- {
 			var to []int
 			for j := range cl.nodes {
 				if r.Chance(3, 4) {
@@ -121,9 +146,15 @@ func main() {
 			}
 			run.injectTx(to)
 		}
-		run.adversarial()
-		if run.ok() {
-			run.fair(pf.fairBlocks)
+		if sc != nil {
+			run.hadAsync = true
+			run.quiet = true
+			run.runScript(*sc)
+		} else {
+			run.adversarial()
+			if run.ok() {
+				run.fair(pf.fairBlocks)
+			}
 		}
 		if run.ok() {
 			run.final()
